@@ -7,17 +7,17 @@ SETUP = "cd /verif/sim && env -u GOSUMDB -u GOTOOLCHAIN GOFLAGS=-mod=mod GOPROXY
 claimed = {
  "C01": ("exploration", "3", "seeded simulation of the routing proxy (one instance, and 2-3 instances with real intra-proxy streams over a simulated memberlist) between two cluster models; early-ack oracle evaluated at the instant each upstream ACK is sent"),
  "C02": ("exploration", "3", "seeded simulation (single- and multi-instance deployment); Temporal's ExecutableTaskTracker rules on every target stream, owner/payload/exactly-once/order oracles"),
- "C03": ("exploration", "3", "seeded simulation (single- and multi-instance deployment); monotone/bounded online, bounded liveness in a fault-free fair tail, and the same tail once injected stream faults have stopped"),
- "C04": ("fault_enumeration", "3", "seeded simulation with stream breaks/reconnects injected at arbitrary scheduling points (fault times spread over the run, biased to in-flight state; single- and multi-instance deployment); behavioural signatures separate three recorded design-level findings"),
+ "C03": ("exploration", "3", "seeded simulation (single- and multi-instance deployment); monotone/bounded online, bounded liveness in a fault-free fair tail, and the same tail once injected faults (stream breaks, intra-proxy connection resets, instance crash and restart) have stopped"),
+ "C04": ("fault_enumeration", "3", "seeded simulation with stream breaks/reconnects, intra-proxy connection resets, instance crash and instance restart injected at arbitrary scheduling points (fault times spread over the run, biased to in-flight state; single- and multi-instance deployment); behavioural signatures separate three recorded design-level findings"),
  "C05": ("exploration", "3", "seeded simulation (in-system translation oracle through a recording ShardManager decorator) plus seeded op-sequence testing of the ring component against a reference model"),
  "C06": ("fault_enumeration", "3", "seeded simulation of the pass-through forwarder; terminal events of every kind placed at arbitrary scheduling points; relay order/content, bounded joint termination under a fair schedule, leaked-task oracle"),
- "C09": ("exploration", "3", "seeded simulation of 2-3 proxy instances over a simulated memberlist fabric and intra-proxy links; convergence oracle at quiescence and delivery probes against each instance's own tables"),
+ "C09": ("exploration", "3", "seeded simulation of 2-3 proxy instances over a simulated memberlist fabric and intra-proxy links (announcement order/delay/duplication, instance leave and rejoin under the same name); convergence oracle at quiescence and delivery probes against each instance's own tables"),
  "C10": ("fault_enumeration", "3", "seeded simulation of the real mux pool (yamux, providers, manager, sessions) over a simulated network with connection/session faults and shutdown at arbitrary points; limit, self-healing, permit accounting and closed-after-shutdown oracles"),
  "C11": ("exploration", "3", "seeded simulation with real gRPC over the mux pool; RPC outcome and serving session vs the registered live set at quiescent points"),
  "C19": ("fault_enumeration", "3", "seeded TLS handshakes between the proxy's real TLS configurations and a harness peer with generated credentials, under simulated clock jumps and connection cuts/corruption; admission vs independent x509 verification at the simulated time"),
  "C20": ("exploration", "3", "seeded simulation of the stream handler (pass-through, LCM and routing mode) with hostile stream-open metadata, concurrently, followed by well-formed streams; served-or-rejected, wedge (task waiting on a lock forever), counter-bookkeeping and crash oracles"),
  "C07": ("exploration", "3", "configuration swarm over a really assembled and running ClusterConnection in LCM mode between two fake clusters on the simulated network; DescribeCluster override and forwarded stream metadata vs independent arithmetic and Temporal's hash partitioning"),
- "C08": ("exploration", "3", "seeded simulation with overlapping stream incarnations (single- and multi-instance deployment); crash, per-instance registry, intra-proxy link/stream and leaked-task oracles"),
+ "C08": ("exploration", "3", "seeded simulation with overlapping stream incarnations (single- and multi-instance deployment, instance crash and restart); crash, per-instance registry, intra-proxy link/stream and leaked-task oracles"),
 }
 pending = {k: "check under construction in this round (simulation world not built yet); will be claimed once it runs" for k in []}
 NA = {
